@@ -108,10 +108,13 @@ struct Live {
     std::istringstream hdr("#");
     map->readLineFromStream(&hdr, "w.csv", false, &lineNo, &row, &err, false, nullptr, nullptr);
     loadRc = RESULT_OK;
-    for (const string& l : w->lines) {
+    for (const string& l0 : w->lines) {
+      // a line that starts with "@2 " belongs to a second definition file (conditions are kept per file name)
+      bool second = l0.compare(0, 3, "@2 ") == 0;
+      string l = second ? l0.substr(3) : l0;
       std::istringstream is(l);
       string e;
-      result_t rc = map->readLineFromStream(&is, "w.csv", false, &lineNo, &row, &e, false, nullptr, nullptr);
+      result_t rc = map->readLineFromStream(&is, second ? "v.csv" : "w.csv", false, &lineNo, &row, &e, false, nullptr, nullptr);
       if (rc != RESULT_OK) { loadRc = rc; err += "[" + l + ": " + getResultCode(rc) + " " + e + "]"; }
     }
     string e2;
